@@ -1101,6 +1101,14 @@ def run(an: Analysis, rep):
             what="the name of *args / **kwargs (Optional[str]: '' is a name a hand-made code object can carry, None means the parameter is absent)")
     from .common import SharedRules as _SR
     from . import c09
+    from . import c04 as _c04d
+    shd11 = _SR(rep, "R11.D", "the decoder passes co_varnames on as it is and takes the docstring from co_consts[0] exactly when that is a str (shared with C04's R04.1 / R04.5): a renamed local or a first "
+                              "constant moved out of / into the docstring slot changes co_varnames / co_consts of the re-encoded object, silently")
+    rep.run(_c04d.r041_input, an, shd11)
+    rep.run(_c04d.r045, an, shd11)
+    from . import c03 as _c03e
+    rep.run(_c03e.r03e, an, _SR(rep, "R11.E", "the encoder's layout folded over witness block lists (shared with C03's R03.E): the tables come out in first-use order with the unreferenced entries last - the "
+                                              "order the decoder assumed when it left them without a position - so co_names / co_consts are reproduced exactly"))
     rep.run(c09.unreferenced_rules, an, _SR(rep, "R11.U", "table entries no instruction references are all kept in the data (shared with C09's R09.3): otherwise to_code() rebuilds a shorter table and different flags, silently"))
     rep.run(r117, an, rep)
     rep.run(r119, an, rep)
